@@ -428,6 +428,10 @@ def replay_known(ctx, fmt="stmt", replay_fn=None):
     Returns the set of features to switch back on."""
     enable = set()
     for f in ctx.findings:
+        if f.get("status") == "fixed":
+            # repaired by a fix: commit - its class is generated again (and nothing is suppressed)
+            enable.update(f.get("features", []))
+            continue
         if f.get("status") != "open" or "program" not in f.get("witness", {}):
             continue
         w = f["witness"]
